@@ -243,3 +243,9 @@ def run_stream(ctx, label, scripts, model_ok, classify=None, max_reports=5, proj
 def shrink_script(src):
     """scripts are short and carry their own prediction (which a removed line would invalidate): kept whole"""
     return src
+
+
+def corpus_scripts(pid):
+    """the fixed self-describing scripts of /verif/corpus/<pid> (documentation examples and hand-written edge cases)"""
+    d = core.VERIF / "corpus" / pid
+    return [f.read_text() for f in sorted(d.glob("*.sd"))] if d.exists() else []
